@@ -1078,6 +1078,13 @@ def section_hostile(chk, r, binary, n, fixed, nextest=None, n_cli=0, corpus_case
             why = f"cargo-nextest died with status {h['rc']} on a malformed archive"
         elif "panic" in h["ex"]:
             why = f"extract_archive panicked: {h['ex']['panic'][:200]}"
+        if why is None and h["specs"] is not None and not h["cli"]:
+            bad_i = next((i for i, e in enumerate(h["specs"]) if not py_path_ok(e["raw"]) or not e["cksum_ok"]), None)
+            if bad_i is not None and impl_class(h["ex"]) != 1 \
+                    and not any(e["kind"] in ("symlink", "hardlink") for e in h["specs"][:bad_i]):
+                e = h["specs"][bad_i]
+                why = (f"entry {bad_i} ({e['raw'].decode('utf-8', 'backslashreplace')!r}, checksum "
+                       f"{'ok' if e['cksum_ok'] else 'bad'}) has a non-normal path or a bad checksum and was not rejected")
         if why:
             if not fixed and h["has_link"]:
                 chk.known_finding("F19 an archive with a symbolic link entry followed by an entry through it "
@@ -1179,7 +1186,7 @@ def parse_strace(log, tmp_marker=".atomicwrite"):
             steps["rename"] = okay
         elif name == "fsync" and steps["rename"] is not None:
             steps["fsync_dir"].append(okay)
-    return counts, before or dict(counts), steps
+    return counts, before or {}, steps
 
 
 def model_outcomes(steps):
@@ -1340,9 +1347,8 @@ def section_crash(chk, r, binary, n_inject, n_kill, nextest=None, n_cli_kill=0, 
                      f"{coq_list(res['outcomes'])}) [[100]; [102]]")
     model = vlib.coq_eval("c19w", IMPORTS, exprs, PRELUDE)
     ok = True
-    for res, (committed, _) in zip(results, model):
-        good = res["state"] in ("absent", "old", "complete")
-        if not good:
+    for res in results:                 # the property's own statement first: a concrete failing input
+        if res["state"] not in ("absent", "old", "complete"):
             chk.violation("counterexample", "oracle:atomic",
                           dict(input=dict(fault=res["inject"], preexisting_destination=res["old"]),
                                clause=f"after the injected failure the destination is not all-or-nothing: {res['state']}",
@@ -1356,12 +1362,13 @@ def section_crash(chk, r, binary, n_inject, n_kill, nextest=None, n_cli_kill=0, 
                                impl=res))
             ok = False
             break
-        if bool(committed) != (res["state"] == "complete"):
+    for res, (committed, _) in zip(results, model):
+        if ok and bool(committed) != (res["state"] == "complete"):
             chk.violation("broken-obligation", "corr:atomic-write",
                           dict(input=dict(fault=res["inject"], preexisting_destination=res["old"]),
                                impl=dict(state=res["state"], steps=res["steps"]),
                                model=dict(committed=committed, outcomes=res["outcomes"]),
-                               note="the all-or-nothing oracle accepted this run"), no_input=True)
+                               note="the all-or-nothing oracle accepted every fault-injection run"), no_input=True)
             ok = False
             break
     for k in kills:
